@@ -434,6 +434,49 @@ func (c *Ctx) slotAssignments(f *Fn, cf *funcCFG) {
 				}
 				return true
 			})
+			if res != "" {
+				return res
+			}
+			// the inverted form: `if F == zero { F = v; return nil }; return error` - the store stands on the edge on
+			// which the slot was found empty, and the function refuses on another path
+			zeroTest := func(e ast.Expr) (ast.Expr, token.Token, bool) {
+				be, ok := ast.Unparen(e).(*ast.BinaryExpr)
+				if !ok || (be.Op != token.NEQ && be.Op != token.EQL) {
+					return nil, 0, false
+				}
+				tf := fieldSel(pk, be.X)
+				if tf == nil || tf.Origin() != fld.Origin() {
+					return nil, 0, false
+				}
+				zero := isNil(pk, be.Y)
+				if s, isStr := constString(pk, be.Y); isStr && s == "" {
+					zero = true
+				}
+				if !zero || !holderOK(be.X.(*ast.SelectorExpr).X) {
+					return nil, 0, false
+				}
+				return be, be.Op, true
+			}
+			found := ""
+			established := cf.establishedAt(site, func(cond ast.Expr, trueEdge bool) bool {
+				for _, a := range impliedAtoms(cond, trueEdge) {
+					if e, op, ok := zeroTest(a.e); ok && ((op == token.EQL && a.holds) || (op == token.NEQ && !a.holds)) {
+						found = exprString(e)
+						return true
+					}
+				}
+				return false
+			}, nil)
+			refuses := false
+			ast.Inspect(f.Decl.Body, func(m ast.Node) bool {
+				if ret, ok := m.(*ast.ReturnStmt); ok && returnsNonNilError(pk, []ast.Stmt{ret}) {
+					refuses = true
+				}
+				return true
+			})
+			if established && refuses && found != "" {
+				return found + " (on the edge that leads to the store; the other path returns an error)"
+			}
 			return res
 		}
 		if upd != nil {
@@ -1679,6 +1722,43 @@ func (c *Ctx) ruleJsightFirst() {
 			}
 			return true
 		})
+		if !ok {
+			// the inverted form: the version is stored only on the edge on which it was found empty, and the function
+			// returns an error otherwise
+			cf := buildCFG(g.Decl.Body)
+			ast.Inspect(g.Decl.Body, func(n ast.Node) bool {
+				as, isAs := n.(*ast.AssignStmt)
+				if !isAs || len(as.Lhs) != 1 {
+					return true
+				}
+				if fld := fieldSel(g.Pkg, as.Lhs[0]); fld == nil || fld.Name() != "JSightVersion" {
+					return true
+				}
+				est := cf.establishedAt(as, func(cond ast.Expr, trueEdge bool) bool {
+					for _, a := range impliedAtoms(cond, trueEdge) {
+						if be, isBe := a.e.(*ast.BinaryExpr); isBe && isEmptyStringLit(be.Y) {
+							if fld := fieldSel(g.Pkg, be.X); fld != nil && fld.Name() == "JSightVersion" {
+								if (be.Op == token.EQL && a.holds) || (be.Op == token.NEQ && !a.holds) {
+									return true
+								}
+							}
+						}
+					}
+					return false
+				}, nil)
+				refuses := false
+				ast.Inspect(g.Decl.Body, func(m ast.Node) bool {
+					if ret, isRet := m.(*ast.ReturnStmt); isRet && returnsNonNilError(g.Pkg, []ast.Stmt{ret}) {
+						refuses = true
+					}
+					return true
+				})
+				if est && refuses {
+					ok = true
+				}
+				return true
+			})
+		}
 		if ok {
 			r.Ok("C03-JSIGHT-FIRST", "AddJSight", "a second JSIGHT is refused", c.pos(g.Decl.Pos()))
 		} else {
